@@ -110,6 +110,16 @@ public:
     // Calculate TTL from DNS result
     std::uint32_t ttl = calculateResultTtl(result);
 
+    // RFC 1035 3.2.1: a TTL of zero means the answer may only be used for the transaction
+    // in progress and must not be cached. (ExpiringCache::set() would read a custom TTL
+    // of 0 as "use the default TTL" and serve the answer for minutes.) The new answer
+    // still supersedes whatever was cached for this question.
+    if (ttl == 0)
+    {
+      cache_->remove(key);
+      return;
+    }
+
     // Store positive result
     CachedDnsResult cachedResult(result);
     cache_->set(key, cachedResult, std::chrono::seconds(ttl));
@@ -150,6 +160,14 @@ public:
     auto existingEntry = cache_->get(key);
     bool hadEntry = existingEntry.has_value();
     bool hadNegativeEntry = hadEntry && existingEntry->isNegative;
+
+    // A negative TTL of zero (explicit, or SOA MINIMUM / SOA TTL of 0) means "do not cache"
+    // (RFC 2308 section 5); see put() for why it must not reach ExpiringCache::set().
+    if (negativeTtl == 0)
+    {
+      cache_->remove(key);
+      return;
+    }
 
     // Store negative result
     CachedDnsResult cachedResult(result, errorMessage);
